@@ -16,7 +16,7 @@ build() { # atomic replace so that concurrent invocations never see a half-writt
 buildrace() {
   go build -race -tags verif -o "bin/.fverif-race.$$" ./cmd/fverif && mv -f "bin/.fverif-race.$$" bin/fverif-race
 }
-needs_race() { case "$1" in C05|C11|C19|C20) return 0;; *) return 1;; esac; }
+needs_race() { case "$1" in C02|C05|C11|C19|C20) return 0;; *) return 1;; esac; }
 
 case "${1:-}" in
   build)
